@@ -751,7 +751,7 @@ func c01ParseCapture(c *Ctx) {
 	c.check(strip(callArg(ah, -1)) == strip(w.msgUnderConstruction(f)), rule, "ParseMessage/target", w.ipos(ah), "headers are added to the message being built", "AddHeader is applied to another message")
 	// one AddHeader per header line: within one loop iteration on the header branch
 	if colon != nil {
-		found := func(a Atom) bool { return a.Kind == "eqk" && a.K == -1 && strip(a.X) == ssa.Value(colon) }
+		found := func(a Atom) bool { return a.Kind == "ltk" && a.K == 0 && strip(a.X) == ssa.Value(colon) }
 		c.check(w.requires(f, ah, found, false), rule, "ParseMessage/colon-required", w.ipos(ah), "a line without colon is rejected", "a header line without ':' is stored instead of being rejected")
 	}
 	mn, mx, _ := countSites(blockStart(ah.Block()), func(b *ssa.BasicBlock, i int) bool { return true }, isInstr(ah))
